@@ -244,9 +244,17 @@ def wl_partition(ctx, rng, i):
             exercise(ctx, rng, "CompositeDataSource", cds, union, c2, full=(pi == 0))
             ctx.nontrivial(layout, perm, "composite")
             # composite-attached filters reach every member
-            for _ in range(3):
+            for round_ in range(4):
                 try:
                     f = gen_filter(rng, union)
+                    if round_ == 3:
+                        # a filter which tells the versions of one object apart and lets an older one through only
+                        multi = [sid for sid in union.ids() if len(union.versions(sid)) >= 2 and "name" in union.versions(sid)[0]]
+                        if not multi:
+                            continue
+                        vs = sorted(union.versions(rng.choice(multi)), key=version_instant)
+                        f = ("name", "=", rng.choice(vs[:-1])["name"])
+                        ctx.count("version_discriminating_filters")
                     q = [gen_filter(rng, union)] if rng.random() < 0.5 else []
                     exp = evaluate([f] + q, union.items, TS_PROPS)
                 except Unjudged:
@@ -273,6 +281,15 @@ def wl_partition(ctx, rng, i):
                             ctx.ev()
                             ctx.count("attached_filter_lookups")
                             bad = [x for x in ([g] if g is not None else []) + list(av) if not evaluate([f], [norm(x)], TS_PROPS)]
+                            # lookup by id under the filter: the newest of the versions it lets through, however they are spread over the members
+                            letthrough = evaluate([f], union.versions(sid), TS_PROPS)
+                            if letthrough and not bad:
+                                newest = max(letthrough, key=version_instant)
+                                if g is None or key(norm(g)) != key(newest):
+                                    ctx.violation("composite-get-not-newest-passing", "composite with attached filter %s: get(%s) answered %s, the newest version the filter lets through is %s (members: %s)" % (
+                                        fdesc(f), sid, "nothing" if g is None else norm(g).get("modified"), newest.get("modified"), layout),
+                                        dict(c2, attached=fdesc(f), id=sid, passing=[x.get("modified") for x in letthrough]))
+                                    break
                             if bad:
                                 ctx.violation("composite-filter-not-applied-to-member:" + ("get" if g is not None and not evaluate([f], [norm(g)], TS_PROPS) else "all_versions"),
                                               "composite with attached filter %s returned an object that fails it (members: %s)" % (fdesc(f), layout),
